@@ -545,5 +545,5 @@ V("refactor-block-index-helper", ["C01", "C08"], ["BOUND-SAMESRC", "GEN-BLOCKS",
   (IG, "                if len(blockmap[i]) == 1:\n                    A_indices.append(index.global_index + offset)\n                else:\n                    block_size = blockdata.ma_data[i].tabledata.block_size\n                    A_indices.append(block_size * index.global_index + offset)",
        "                stride = 1 if len(blockmap[i]) == 1 else tabledata.block_size\n                A_indices.append(stride * index.global_index + offset)"))
 
-V("rflow-normal-unrestricted", ["C02"], ["RESTRICTION-FLOW"], "fire", (ACC, "            facet = self.symbols.entity(\"facet\", mt.restriction)\n            return table[facet][mt.component[0]]", "            facet = self.symbols.entity(\"facet\", None)\n            return table[facet][mt.component[0]]"))
+V("rflow-normal-unrestricted", ["C02"], ["RESTRICTION-FLOW"], "fire", (ACC, "            table = L.Symbol(f\"{cellname}_reference_normals\", dtype=L.DataType.REAL)\n            facet = self.symbols.entity(\"facet\", mt.restriction)", "            table = L.Symbol(f\"{cellname}_reference_normals\", dtype=L.DataType.REAL)\n            facet = self.symbols.entity(\"facet\", None)"))
 V("rflow-benign-local", ["C02"], ["RESTRICTION-FLOW"], "benign", (ACC, "        expr = self.symbols.domain_dof_access(dof, component, gdim, num_scalar_dofs, mt.restriction)", "        expr = self.symbols.domain_dof_access(dof, component, gdim, num_scalar_dofs, restriction=mt.restriction)"))
